@@ -99,10 +99,9 @@ class Models:
         ax.append(z3.ForAll([s], str_lower(str_lower(s)) == str_lower(s)))
         n = z3.Const("ax_n", z3.IntSort())
         ax.append(z3.ForAll([n], z3.And(str_is_int(int_str(n)), str_int(int_str(n)) == n)))
-        from .kinds import USED_LIST_SORTS
-        for name, srt in list(USED_LIST_SORTS.items()):
-            l = z3.Const("ax_l", srt)
-            ax.append(z3.ForAll([l], srt.len(l) >= 0, patterns=[srt.len(l)]))
+        from .kinds import USED_MEM
+        for name, k in list(USED_MEM.items()):
+            ax += k.axioms()
         return ax
 
     # ------------------------------------------------------------------ operators
@@ -189,15 +188,20 @@ class Models:
                 return
             sa, sb = eng.to_smt(a, st), eng.to_smt(b, st)
             if isinstance(sa, V) and isinstance(sa.kind, Seq):
-                sb2 = self.seq_like(eng, b, sa.kind, st)
+                K = sa.kind
                 if isinstance(b, (VList, VTuple)) and len(b.items) == 1:
-                    yield st, V(sa.kind, sa.kind.append(sa.term, sa.kind.at(sb2.term, 0)))
+                    y = eng.coerce(b.items[0], K.elem, st).term
+                    new = K.named(st, K.append(sa.term, y))
+                    st.assume(K.lemma_append(new, sa.term, y))
                 else:
-                    yield st, V(sa.kind, sa.kind.concat(sa.term, sb2.term))
+                    sb2 = self.seq_like(eng, b, K, st)
+                    new = K.concat(st, sa.term, sb2.term)
+                yield st, V(K, new)
                 return
             if isinstance(sb, V) and isinstance(sb.kind, Seq):
                 sa2 = self.seq_like(eng, a, sb.kind, st)
-                yield st, V(sb.kind, sb.kind.concat(sa2.term, sb.term))
+                new = sb.kind.concat(st, sa2.term, sb.term)
+                yield st, V(sb.kind, new)
                 return
         if isinstance(a, VEmptySet):
             a = VTuple([])
@@ -411,7 +415,11 @@ class Models:
             l = norm(lo, z3.IntVal(0))
             h = norm(hi, n)
             ln = z3.If(h - l < 0, 0, h - l)
-            yield st, V(obj.kind, obj.kind.sub(obj.term, l, ln) if obj.kind != STR else z3.SubString(obj.term, l, ln))
+            if obj.kind != STR:
+                new = obj.kind.sub(st, obj.term, l, ln)
+                yield st, V(obj.kind, new)
+            else:
+                yield st, V(STR, z3.SubString(obj.term, l, ln))
             return
         raise Untranslatable(f"slice of {obj!r}", node)
 
@@ -475,7 +483,7 @@ class Models:
                         st1.assume(z3.Implies(
                             z3.Exists([pos.term], z3.And(0 <= pos.term, pos.term < ks.len(keys), ks.at(keys, pos.term) == ke.term)),
                             z3.And(0 <= pos.term, pos.term < ks.len(keys), ks.at(keys, pos.term) == ke.term)))
-                        newkeys = ks.without(keys, pos.term)
+                        newkeys = ks.without(st1, keys, pos.term)
                         yield st1, V(k, k.mk(z3.Store(k.dom(obj.term), ke.term, z3.BoolVal(False)), k.valarr(obj.term), newkeys))
                     else:
                         eng.raise_exc(st1, "KeyError", node)
@@ -696,13 +704,14 @@ class Models:
     # -- seq (list held in SMT)
     def seq_append(self, eng, s, args, kw, st, node):
         x = eng.coerce(args[0], s.kind.elem, st)
-        new = V(s.kind, s.kind.append(s.term, x.term))
+        new = V(s.kind, s.kind.named(st, s.kind.append(s.term, x.term)))
+        st.assume(s.kind.lemma_append(new.term, s.term, x.term))
         for st1 in self.write_back(eng, node, new, st):
             yield st1, NONE
 
     def seq_extend(self, eng, s, args, kw, st, node):
         o = self.seq_like(eng, args[0], s.kind, st)
-        new = V(s.kind, s.kind.concat(s.term, o.term))
+        new = V(s.kind, s.kind.concat(st, s.term, o.term))
         for st1 in self.write_back(eng, node, new, st):
             yield st1, NONE
 
@@ -720,7 +729,7 @@ class Models:
         for st1, ok in eng.fork(st, s.kind.contains(s.term, x.term), "remove"):
             if ok:
                 pos = self.first_index(eng, s, x, st1)
-                new = V(s.kind, s.kind.without(s.term, pos.term))
+                new = V(s.kind, s.kind.without(st1, s.term, pos.term))
                 for st2 in self.write_back(eng, node, new, st1):
                     yield st2, NONE
             else:
@@ -740,10 +749,11 @@ class Models:
             if ok:
                 if first:
                     item = V(k.elem, k.at(s.term, 0))
-                    new = V(k, k.sub(s.term, 1, n - 1))
+                    new = V(k, k.sub(st1, s.term, 1, n - 1))
                 else:
                     item = V(k.elem, k.at(s.term, n - 1))
-                    new = V(k, k.mk(n - 1, k.arr(s.term)))
+                    new = V(k, k.named(st1, k.mk(n - 1, k.arr(s.term))))
+                st1.assume(k.lemma_sublist(new.term, s.term))
                 for st2 in self.write_back(eng, node, new, st1):
                     yield st2, item
             else:
